@@ -91,7 +91,7 @@ func genStep(p *Profile, cfg *Config) *rapid.Generator[[]Op] {
 				op.Out = 25 // gRPC discarded the pick: Done(DoneInfo{}) without any RPC
 			}
 			if rapid.IntRange(0, 3).Draw(t, "rep") == 0 {
-				op.Rep = 1
+				op.Rep = rapid.SampledFrom([]int{1, 1, 2}).Draw(t, "repkind")
 				op.Reply = rapid.SliceOfN(rapid.IntRange(0, 4), 0, 3).Draw(t, "reply")
 			}
 			return op
@@ -465,7 +465,12 @@ func genStep(p *Profile, cfg *Config) *rapid.Generator[[]Op] {
 			if rapid.Bool().Draw(t, "boundfirst") {
 				reply = append([]int{k1}, reply...)
 			}
-			ops := []Op{{K: "pick", M: 1, Key: k1}, {K: "done", Idx: -1, Out: 0}, {K: "pick", M: 0}, {K: "pick", M: 4, Key: k1}, {K: "done", Idx: -1, Out: 0, Rep: 1, Reply: reply}}
+			bm, rep := 4, 1
+			if rapid.IntRange(0, 2).Draw(t, "viasubs") == 0 {
+				// the keys come in a repeated message field; sometimes one element is nil (the reply binds nothing then)
+				bm, rep = 28, rapid.SampledFrom([]int{1, 2, 2}).Draw(t, "subsnil")
+			}
+			ops := []Op{{K: "pick", M: 1, Key: k1}, {K: "done", Idx: -1, Out: 0}, {K: "pick", M: 0}, {K: "pick", M: bm, Key: k1}, {K: "done", Idx: -1, Out: 0, Rep: rep, Reply: reply}}
 			for _, k := range reply {
 				ops = append(ops, Op{K: "pick", M: rapid.SampledFrom([]int{2, 2, 5}).Draw(t, "mm"), Key: k}, Op{K: "pick", M: 2, Key: k})
 			}
@@ -648,15 +653,15 @@ func GenCase(t *rapid.T, p *Profile) *Case {
 	return c
 }
 
-var allMethods = []int{0, 0, 1, 1, 2, 2, 2, 3, 4, 5, 5, 6, 9, 10, 11, 12, 13, 19, 20, 25, 26, 27}
-var hostileMethods = []int{0, 1, 2, 3, 4, 5, 6, 7, 8, 9, 14, 15, 16, 17, 18, 19, 20, 21, 22, 23, 24, 25, 26, 27}
+var allMethods = []int{0, 0, 1, 1, 2, 2, 2, 3, 4, 5, 5, 6, 9, 10, 11, 12, 13, 19, 20, 25, 26, 27, 28, 28}
+var hostileMethods = []int{0, 1, 2, 3, 4, 5, 6, 7, 8, 9, 14, 15, 16, 17, 18, 19, 20, 21, 22, 23, 24, 25, 26, 27, 28}
 
 // Profiles by name.
 var Profiles = map[string]*Profile{
 	"affinity": {Name: "affinity", Min: [2]int{1, 4}, Max: [2]int{1, 5}, WM: []int{1, 2, 3, 100}, Fallback: 30, UdMs: []int64{0, 7, 100}, UdCalls: []int{1, 1, 2}, Strict: 50, Shutdown: true,
 		W: map[string]int{"resolve": 1, "state": 8, "pick": 18, "done": 10, "adv": 2, "allready": 2, "bindflow": 10, "decall": 8, "readyrepl": 8, "staledown": 3, "affswap": 8, "fbflow": 2, "stalede": 1, "bindacross": 6, "multibind": 6, "unbindrace": 5}, Methods: allMethods},
 	"load": {Name: "load", Min: [2]int{1, 5}, Max: [2]int{1, 5}, WM: []int{1, 2, 3, 4, 5}, Fallback: 20, UdMs: []int64{0, 7, 100}, UdCalls: []int{1, 2}, RR: 15, Strict: 50,
-		W: map[string]int{"resolve": 1, "state": 8, "pick": 25, "done": 22, "adv": 2, "allready": 3, "bindflow": 3, "decall": 6, "readyrepl": 6, "staledown": 3, "saturate": 3, "refreshcycle": 3, "stalede": 2, "fbflow": 3, "flaprefresh": 3, "affburst": 1}, Methods: []int{0, 0, 0, 0, 2, 2, 9, 1, 3}},
+		W: map[string]int{"resolve": 1, "state": 8, "pick": 25, "done": 22, "adv": 2, "allready": 3, "bindflow": 3, "decall": 6, "readyrepl": 6, "staledown": 3, "saturate": 3, "refreshcycle": 3, "stalede": 2, "fbflow": 3, "flaprefresh": 3, "affburst": 1, "multibind": 3}, Methods: []int{0, 0, 0, 0, 2, 2, 9, 1, 3, 28}},
 	"size": {Name: "size", Wild: true, WM: []int{1}, Fallback: 10, UdMs: []int64{0, 7}, UdCalls: []int{1}, Strict: 50, Shutdown: true,
 		W: map[string]int{"resolve": 3, "state": 10, "pick": 20, "done": 6, "adv": 1, "failnew": 2, "allready": 5, "decall": 3, "readyrepl": 3, "emptypool": 1, "saturate": 6, "growmax": 2, "fillwm": 2, "flaprefresh": 3}, Methods: []int{0, 0, 0, 2, 9}, NoFirst: 5},
 	"states": {Name: "states", Min: [2]int{1, 4}, Max: [2]int{1, 5}, WM: []int{1, 2, 100}, Fallback: 30, UdMs: []int64{7, 100}, UdCalls: []int{1}, Strict: 50, Shutdown: true, Hostile: true,
